@@ -310,7 +310,7 @@ class Community(EZPackOverlay):
         """
         Create a new introduction response message, without sending it.
 
-        :param lan_socket_address: What the request sender thinks our address is.
+        :param lan_socket_address: The request sender's LAN address (forwarded in the puncture request).
         :param socket_address: The request sender's address.
         :param identifier: The introduction request identifier that we are responding to.
         :param introduction: Introduce the request sender to this given peer.
@@ -467,7 +467,7 @@ class Community(EZPackOverlay):
         self.network.add_verified_peer(peer)
         self.network.discover_services(peer, [self.community_id, ])
 
-        packet = self.create_introduction_response(payload.destination_address, peer.address, payload.identifier,
+        packet = self.create_introduction_response(payload.source_lan_address, peer.address, payload.identifier,
                                                    new_style=peer.new_style_intro)
         self.endpoint.send(peer.address, packet)
 
